@@ -1,4 +1,4 @@
-import LexVerif.Model.ParseNumber
+import LexVerif.Proof.ParseNumberDebugApi
 /-!
 # C10 in debug-assertion builds (`Cfg.debug = true`)
 
@@ -103,5 +103,106 @@ theorem witness_sep_itc_hexfloat :
 theorem witness_parseNumber :
     panicTag (parseNumber ⟨fFormat, sepItc, true⟩ false {} (Bytes.new inFrac) false) = some "step_by: on digit separator" := by
   decide +kernel
+
+/-! ### why the theorem below needs `radix → power-of-two` on the feature record
+
+`Features` is a record of independent booleans; cargo's `radix` feature enables `power-of-two`. For the
+ill-formed record `{radix, ¬power-of-two}` the radix assertions of `parse_8digits` are reachable — this is not
+a configuration the crate can be built in (no harness op). -/
+theorem witness_illformed_features :
+    panicTag (parseFloatSyntax ⟨{ radix := true }, ⟨0xa02100000000000000000000000000c⟩, true⟩ { exp := 112 } false
+      [49, 50, 51, 52, 53, 54, 55, 56]) = some "parse_8digits: radix >= 16" := by
+  decide +kernel
+
+/-! ## Part 2 — no panic in debug builds when `Bytes::IS_CONTIGUOUS`
+
+Hypotheses (all syntactic): the format passes `NumberFormat::error()` and `check_radix!` (what every API entry
+point checks first), the feature record is one cargo can produce, and the format has no digit-separator byte
+(`DIGIT_SEPARATOR == 0`: every build without the `format` feature, and every format without a separator
+character — separator *flags* may be set). `is_valid_options_punctuation` is **not** needed in this class.
+
+Conclusion, for every input / options / partial flag, for `debug = true` and (same proof) `debug = false`:
+never `Err.panic`, never `Err.fault` (this includes `fault "fuel"`: no loop runs out of fuel), and the count
+returned by `parse_number` is inside the buffer. Proof obligations discharged (see `Proof/ParseNumberDebug*.lean`):
+(a) `step_unchecked`/`step_by` assertions (`stepUnchecked_ok`, `stepBy8_ok`), (b) `get_unchecked(..n)` bounds
+(`sliceTo_ok`), (c) radix assertions of `try_parse_8digits`/`parse_8digits`/`parse_u64_digits` from
+`can_try_parse_multidigit!` + validity (`Ctx.multi`), (d) `parse_u64_digits` overflow (`MInv`, `pow_u64Step`,
+stored slices are digit bytes: `IntOk.range`, `FracOk.digits`), (e) `scaleExponent` (`scale_of_checkRadix`),
+(f) `fraction_digits.unwrap()` unreachable (counting argument in `manyDigitsPhase_safe`), (g) fuel.
+The other model panic sites (`debug_assert format.is_valid()`, `debug_assert !is_buffer_empty()`,
+`unreachable!()` of `peek`) are unreachable too (`parseNumber_safe`, `parseFloatSyntax_safe`, `skip_ne_unreachable`). -/
+
+open LexVerif.Proof.PNDebug in
+/-- the explicit hypothesis set `H` of the main class -/
+structure ValidContiguous (c : Cfg) : Prop where
+  formatOk : (formatError c.feats c.fmt).isNone = true
+  radixOk : checkRadix c.feats c.fmt = true
+  featsOk : c.feats.radix = true → c.feats.powerOfTwo = true
+  contiguous : c.bytesContiguous = true
+
+/-- neither a panic nor a fault -/
+def NoPanicNoFault {α : Type} (r : Except Err α) : Prop :=
+  (∀ t, r ≠ .error (.panic t)) ∧ (∀ t, r ≠ .error (.fault t))
+
+theorem ValidContiguous.ctx {c : Cfg} (h : ValidContiguous c) : LexVerif.Proof.PNDebug.Ctx c :=
+  LexVerif.Proof.PNDebug.Ctx.of_valid c h.formatOk h.radixOk h.featsOk h.contiguous
+
+/-- `parse_number`, any `debug` value: no panic, no fault, count within the buffer -/
+theorem parseNumber_no_panic (c : Cfg) (h : ValidContiguous c) (o : POpts) (isPartial neg : Bool) (b : Bytes)
+    (hb : b.index < b.slc.length) :
+    NoPanicNoFault (parseNumber c isPartial o b neg) ∧
+      ∀ n count, parseNumber c isPartial o b neg = .ok (n, count) → count ≤ b.slc.length := by
+  have hs := LexVerif.Proof.PNDebug.parseNumber_safe h.ctx isPartial o b neg hb
+  exact ⟨⟨hs.not_panic, hs.not_fault⟩, fun n count he => hs.of_eq_ok he⟩
+
+/-- C10, debug-assertion build, syntax layer, `parse_number` -/
+theorem parseNumber_no_panic_debug (c : Cfg) (h : ValidContiguous c) (_hd : c.debug = true) (o : POpts)
+    (isPartial neg : Bool) (b : Bytes) (hb : b.index < b.slc.length) :
+    NoPanicNoFault (parseNumber c isPartial o b neg) ∧
+      ∀ n count, parseNumber c isPartial o b neg = .ok (n, count) → count ≤ b.slc.length :=
+  parseNumber_no_panic c h o isPartial neg b hb
+
+/-- `parse_complete` / `parse_partial` up to the `Number` (sign, `parse_number!`, specials), any `debug` value -/
+theorem parseFloatSyntax_no_panic (c : Cfg) (h : ValidContiguous c) (o : POpts) (isPartial : Bool) (input : List Nat) :
+    NoPanicNoFault (parseFloatSyntax c o isPartial input) := by
+  have hs := LexVerif.Proof.PNDebug.parseFloatSyntax_safe h.ctx o isPartial input
+  exact ⟨hs.not_panic, hs.not_fault⟩
+
+/-- C10, debug-assertion build, syntax layer, entry points -/
+theorem parseFloatSyntax_no_panic_debug (c : Cfg) (h : ValidContiguous c) (_hd : c.debug = true) (o : POpts)
+    (isPartial : Bool) (input : List Nat) : NoPanicNoFault (parseFloatSyntax c o isPartial input) :=
+  parseFloatSyntax_no_panic c h o isPartial input
+
+/-! ### non-vacuity -/
+
+/-- the default build, STANDARD format, debug assertions on -/
+example : ValidContiguous ⟨{}, Format.standard, true⟩ := ⟨by decide +kernel, by decide +kernel, by decide, by decide +kernel⟩
+
+/-- `radix+format`, hex float with base prefix `x` and separator *flags* I+T+C but no separator byte -/
+example : ValidContiguous ⟨fRadixFormat, ⟨0xa0210007800000000000fc70000000c⟩, true⟩ :=
+  ⟨by decide +kernel, by decide +kernel, by decide, by decide +kernel⟩
+
+/-- the many-digits path is exercised and returns `ok` (25 digits) -/
+example : (parseFloatSyntax ⟨{}, Format.standard, true⟩ {} false
+    ([49, 46] ++ inFrac.drop 3 ++ [48, 48, 55])).toBool = true := by decide +kernel
+
+/-! ## Full statement (target, not proved): every valid format outside the I+T+C re-scan class
+
+Supported by the searches described at the top (no other panicking class found), not by a proof. -/
+
+/-- component `k` has a separator byte and the flags internal + trailing + consecutive without leading -/
+def hasItc (c : Cfg) (k : Comp) : Bool :=
+  !c.bytesContiguous && decide (c.sepFlags k = ⟨true, false, true, true⟩)
+
+/-- no stored digit slice can start with a separator that only the first pass skips -/
+def RescanSafe (c : Cfg) : Prop :=
+  hasItc c .fraction = false ∧ (hasItc c .integer = false ∨ c.basePrefix = 0)
+
+def parseNumber_no_panic_debug_full : Prop :=
+  ∀ (c : Cfg) (o : POpts) (isPartial : Bool) (input : List Nat),
+    (formatError c.feats c.fmt).isNone = true → checkRadix c.feats c.fmt = true →
+    isValidOptionsPunctuation c.feats c.fmt o.exp o.dp = true →
+    (c.feats.radix = true → c.feats.powerOfTwo = true) → RescanSafe c →
+    NoPanicNoFault (parseFloatSyntax c o isPartial input)
 
 end LexVerif.Props.C10Debug
